@@ -109,6 +109,6 @@ namespace Health
 /-- THE SWITCH: which machine the driver engine `health` compares the real `health.Monitor`
     against.  `Health.step` = the code as pinned; `HealthFixed.step` = after the repair. -/
 def activeStep (maxFailed : Nat) (s : HState) (ok : Bool) : HState × Option Cb :=
-  Health.step maxFailed s ok
+  HealthFixed.step maxFailed s ok
 end Health
 end Frp
